@@ -690,8 +690,10 @@ def run(ctx):
                 ctx.hist("feature", fl)
             ctx.hist("storages", len(g.world.stores))
             ctx.monitor_evals += g.mon.evals
-            for o in g.mon.observations:
-                ctx.hist("observation", o)
+            for o in g.world.observations:
+                ctx.hist("observation", "from_collection broadcast storages of different length into a ragged storage")
+                if not any(n.startswith("observation:") for n in ctx.notes):
+                    ctx.note("observation: " + o)
             for f in g.failures:
                 sym = f["key"]["symptom"]
                 ops = g.ops[: f["step"] + 1]
@@ -874,7 +876,7 @@ def exhaustive_leg(ctx):
         {"op": "read", "sid": 0, "i": -1}, {"op": "setField", "fid": 0, "vals": [9.0, 9.0]},
         {"op": "extractTimeRange", "sid": 0, "kind": "upto", "b": 0.5},
     ]
-    bounds = {"truncate_once": ctx.budget(3, 4), "truncate": ctx.budget(2, 4), "append": ctx.budget(2, 4),
+    bounds = {"truncate_once": ctx.budget(3, 4), "truncate": ctx.budget(2, 4), "append": ctx.budget(2, 3),
               "readonly": ctx.budget(2, 3), "other": ctx.budget(2, 3)}
     batch, reported = [], set()
 
